@@ -304,10 +304,11 @@ class SelectorPattern:
 
         return self.name
 
-    def match(self, selector: str, index: int, flags: int) -> Match[str] | None:
-        """Match the selector."""
+    def match(self, selector: str, index: int, flags: int) -> tuple[str, Match[str]] | None:
+        """Match the selector and return the name of the pattern that matched along with the match."""
 
-        return self.re_pattern.match(selector, index)
+        m = self.re_pattern.match(selector, index)
+        return (self.name, m) if m else None
 
 
 class SpecialPseudoPattern(SelectorPattern):
@@ -323,16 +324,10 @@ class SpecialPseudoPattern(SelectorPattern):
             for pseudo in p[1]:
                 self.patterns[pseudo] = pattern
 
-        self.matched_name = None  # type: SelectorPattern | None
         self.re_pseudo_name = re.compile(PAT_PSEUDO_CLASS_SPECIAL, re.I | re.X | re.U)
 
-    def get_name(self) -> str:
-        """Get name."""
-
-        return '' if self.matched_name is None else self.matched_name.get_name()
-
-    def match(self, selector: str, index: int, flags: int) -> Match[str] | None:
-        """Match the selector."""
+    def match(self, selector: str, index: int, flags: int) -> tuple[str, Match[str]] | None:
+        """Match the selector and return the name of the pattern that matched along with the match."""
 
         pseudo = None
         m = self.re_pseudo_name.match(selector, index)
@@ -341,8 +336,6 @@ class SpecialPseudoPattern(SelectorPattern):
             pattern = self.patterns.get(name)
             if pattern:
                 pseudo = pattern.match(selector, index, flags)
-                if pseudo:
-                    self.matched_name = pattern
 
         return pseudo
 
@@ -1108,9 +1101,9 @@ class CSSParser:
         while index <= end:
             m = None
             for v in self.css_tokens:
-                m = v.match(pattern, index, self.flags)
-                if m:
-                    name = v.get_name()
+                result = v.match(pattern, index, self.flags)
+                if result:
+                    name, m = result
                     if self.debug:  # pragma: no cover
                         print(f"TOKEN: '{name}' --> {m.group(0)!r} at position {m.start(0)}")
                     index = m.end(0)
